@@ -234,7 +234,7 @@ def scope(seed=0, budget=None):
             yield E("oMath", a, b)
             yield E("oMath", a, b, run("q)r]"))
     # depth 2: every slot of every structure filled with a representative structure
-    ops2 = [[r] for r in reps] + [[reps[0], run(")")]] + [[m] for m in mal]
+    ops2 = [[r] for r in RICH] + [[RICH[0], run(")")], [mal[0]]]
     for s in structures(ops2):
         yield E("oMath", s)
         yield E("oMath", s, run("u)v"))
@@ -402,10 +402,22 @@ class OneLevel(Ref):
 FREE_OPS = [[], [run("x")], [run(" ")], [run("α")], [run("x"), run_pr("y")]]
 
 
+RICH = [E("acc", E("accPr", E("chr", val="̃")), E("e", run("x"))),
+        E("nary", E("naryPr", E("chr", val="∫")), E("sub", run("i")), E("e", run("x"))),
+        E("d", E("dPr", E("begChr", val="["), E("endChr", val="]")), E("e", run("x"))),
+        E("f", E("num", run("a")), E("den", run("b"))),
+        E("rad", E("deg", run("3")), E("e", run("x"))),
+        E("func", E("fName", run("sin")), E("e", run("x")))]
+
+
 def template_scope(tag):
+    if tag == "t":
+        for t in LEAF_TEXTS:
+            yield E("t", text=t)
+        return
     d1 = [s for s in structures(FREE_OPS)]
     yield from (s for s in d1 if s[0] == tag)
-    reps = representatives(d1)
+    reps = RICH + representatives(d1)
     for s in structures([[r] for r in reps]):
         if s[0] == tag:
             yield s
@@ -423,8 +435,30 @@ def template_check(fn, conv, s):
     return None
 
 
+def greek_check(m):
+    """the symbol table and the text mapping, natively: every key alone and inside a run"""
+    conv, fn = m.convert_greek_and_symbols, m.omml_to_latex
+    for k, v in m.GREEK_TO_LATEX.items():
+        for text in (k, "a" + k + "b", k + k):
+            try:
+                got = conv(text)
+            except Exception as e:  # noqa
+                return ("total", "a str", f"{type(e).__name__}: {e}", text)
+            want = text.replace(k, v)
+            if got != want:
+                return ("mapping", want, got, text)
+            out = fn(build(E("oMath", run(text))))
+            if "{" not in text and "}" not in text and out.count("{") != out.count("}"):
+                return ("balance", "equally many '{' and '}'", out, text)
+            if out.strip() in ("{", "(", "["):
+                return ("lone-bracket", "a visible symbol", out, text)
+    return None
+
+
 def category(obligation):
     o = obligation or ""
+    if "convert_greek_and_symbols/" in o or "GREEK_TO_LATEX/" in o:
+        return "greek"
     if "template." in o:
         return "template." + o.split("template.")[1].split("/")[0].split("#")[0]
     if "/raises" in o or "call-pre#convert_greek" in o or "returns-str" in o:
@@ -432,7 +466,7 @@ def category(obligation):
     if "balance" in o or "lone-brace" in o or "inv-" in o or "pending" in o or "counts" in o:
         return "balance"
     if "None-is-empty" in o:
-        return "none"
+        return "none" if "<locals>" not in o else "all"
     if "skipped" in o:
         return "template"
     return "all"
@@ -451,8 +485,25 @@ def find(req):
             r = f"{type(e).__name__}: {e}"
         if r != "":
             return {"reproduced": True, "target": "omml_to_latex.py::omml_to_latex", "inputs": {"tree": None}, "expected": "''", "observed": r}
-        return {"reproduced": False, "note": "omml_to_latex(None) == ''"}
+        which = "all"
     tried = 0
+    if which == "greek":
+        bad = greek_check(m)
+        if bad is not None:
+            d = E("oMath", run(bad[3]))
+            return {"reproduced": True, "target": "omml_to_latex.py::convert_greek_and_symbols", "check": bad[0],
+                    "inputs": {"text": bad[3], "xml": xml_of(d), "tree": d}, "expected": bad[1], "observed": bad[2]}
+        which = "all"
+    if which == "template.t":
+        # a run while a malformed radical is pending: compared with the reference rendering of the pair
+        for mal_ in (E("rad", E("e", run("("))), E("rad", E("deg", run("3")), E("e", run("[")))):
+            for t in LEAF_TEXTS:
+                tried += 1
+                d = E("oMath", mal_, run(t))
+                ok, a, g = matches_reference(fn, conv, d)
+                if not ok:
+                    return {"reproduced": True, "target": "omml_to_latex.py::omml_to_latex", "check": which,
+                            "inputs": {"xml": xml_of(d), "tree": d}, "expected": a, "observed": g, "tried": tried}
     if which.startswith("template."):
         for s_ in template_scope(which.split(".", 1)[1]):
             tried += 1
@@ -461,13 +512,14 @@ def find(req):
                 d = E("oMath", s_)
                 return {"reproduced": True, "target": "omml_to_latex.py::omml_to_latex", "check": bad[0],
                         "inputs": {"xml": xml_of(d), "tree": d}, "expected": bad[1], "observed": bad[2], "tried": tried}
-        return {"reproduced": False, "note": f"{tried} elements <{which[9:]}> render in the documented form of their operands' renderings"}
-    for d in scope(seed):
-        tried += 1
-        bad = check(fn, conv, d, which)
-        if bad is not None:
-            return {"reproduced": True, "target": "omml_to_latex.py::omml_to_latex", "check": bad[0],
-                    "inputs": {"xml": xml_of(d), "tree": d}, "expected": bad[1], "observed": bad[2], "tried": tried}
+        which = "all"
+    for w in ([which] if which == "all" else [which, "all"]):       # any failing input of the property confirms
+        for d in scope(seed):
+            tried += 1
+            bad = check(fn, conv, d, w)
+            if bad is not None:
+                return {"reproduced": True, "target": "omml_to_latex.py::omml_to_latex", "check": bad[0],
+                        "inputs": {"xml": xml_of(d), "tree": d}, "expected": bad[1], "observed": bad[2], "tried": tried}
     return {"reproduced": False, "note": f"{tried} trees of the small scope satisfy the executable contract ({which})"}
 
 
